@@ -95,6 +95,19 @@ def tasks(tier):
         cfg = dict(M=3, deadline=D, alphabet=["ok", "x:T", "r:R"], durs=[0, 1], dur_free=True,
                    strat_menu=[9, 20], strat_free=True, max_unknown=None, sleeper="call", abort=True)
         out.append({"family": "envelope-abort-configured", "cfg": cfg, "entry": e, "bound": 0})
+    # a sleeper that is interrupted part-way (InterruptedError after half of the wait): whatever
+    # the library makes of it, every request fits the time then remaining; and every failure
+    # class goes through the same cap
+    for D, e in itertools.product([3, 6], Q4 + ["Policy.call", "RetryPolicy.execute", "deco"]):
+        cfg = dict(M=3, deadline=D, alphabet=["ok", "x:T", "r:R"], durs=[0, 1], dur_free=True,
+                   strat_menu=[4, 2, 9], strat_free=True, max_unknown=None,
+                   sleeper="call" if e != "deco" else "policy", overshoot=[0, "intr"], over_free=True)
+        out.append({"family": "envelope-interrupted-sleeper", "cfg": cfg, "entry": e, "bound": 0})
+    for D, fr, e in itertools.product([3, 5], [0.0, 1.0], Q4):
+        cfg = dict(M=3, deadline=D, alphabet=["ok"] + [f"x:{k}" for k in "TRSCU"] + ["r:C", "r:S"],
+                   durs=[0, 1], dur_free=True, strat_menu=[9, 1, 3], strat_free=True,
+                   max_unknown=None, sleeper="call", frac=fr)
+        out.append({"family": "envelope-every-class", "cfg": cfg, "entry": e, "bound": 0})
     for t in nest_tasks(Q4, "envelope-reentrant", ["ok", "x:T", "r:R"], bound=1, deadline=3,
                         durs=[0, 2], dur_free=True, strat_menu=[1, 9], overshoot=[0, 3]):
         t["cfg"]["nest"] = dict(t["cfg"]["nest"], script=["x:T", "ok"])
@@ -136,7 +149,10 @@ def monitor(w, cfg):
                 if not isinstance(s, float) or s < 0:
                     v.append(("c02.bad-sleep", f"sleeper called with {s!r}"))
                     continue
-                total += s
+                if len(r) > 5 and isinstance(r[5], int) and r[4] - r[3] < s:
+                    total += r[4] - r[3]   # a sleeper that raised part-way: what really passed
+                else:
+                    total += s
                 if s > D - el + 1e-9:
                     v.append(("c02.sleep-past-deadline",
                               f"sleep of {s} requested at elapsed {el}, only {D - el} remains"))
